@@ -18,7 +18,7 @@
   * `C13_preimage_statement` / `C13_preimage_statement_false` — the statement without the
     independence hypothesis is FALSE of the code (finding F5), by a concrete witness.
 -/
-import DDProofs.ImageF5
+import DDProofs.ImageExample3
 import DDProofs.QuantCor
 namespace DD
 open Std
@@ -299,6 +299,47 @@ example : ∀ fa, ∃ r m', image 3 4 [(.lvl 1, .lvl 0)] [.lvl 0] fa imgM = (.ok
   rw [hres, hip] at hd
   exact ⟨r, m', he, hd⟩
 
+/-- non-vacuity (`C13_image` for a pair that is NOT adjacent): order `a < b < c`; `image(c, TRUE,
+{c: a}, {})` (levels `{2: 0}`, `|2 - 0| = 2`: the code only warns) returns a reference of `a` -/
+example : ∃ r m', image 2 1 [(.lvl 2, .lvl 0)] [] false imgM3 = (.ok r, m') ∧
+    ∀ a, den m'.tbl r a = a 0 := by
+  obtain ⟨hres, hip⟩ := C13_rename_levels imgM3.tbl [(2, 0)] (by simp)
+  simp only [List.map] at hres hip
+  have hnd : ∀ u : Int, (∀ a x, den imgM3.tbl u (upd a 0 x) = den imgM3.tbl u a) →
+      ¬ dependsOn imgM3.tbl u 0 := by
+    rintro u h ⟨a, hne⟩
+    exact hne (by rw [h, h])
+  obtain ⟨r, m', he, _, _, _, _, hd⟩ := C13_image imgM3 imgM3_inv rfl imgM3_varsBij 2 1
+    (imgM3_mem _ (by decide)) (imgM3_mem _ (by decide)) [(.lvl 2, .lvl 0)] [] false []
+    (by rfl) (by rw [hres]; decide) (by rw [hres]; decide)
+    (by
+      rw [hres, hip]; intro p hp; simp at hp; subst hp; rw [imgM3_nvars']; decide)
+    (by
+      rw [hres, hip]; intro p hp l hl; simp at hp; subst hp
+      simp only at hl
+      have : l = 0 := by omega
+      subst this
+      right
+      exact ⟨hnd 2 (fun a x => by rw [imgM3_den2, imgM3_den2]; simp [upd]),
+        hnd 1 (fun a x => by rw [den_one, den_one])⟩)
+  rw [hres, hip] at hd
+  refine ⟨r, m', he, fun a => bool_eq_of_iff ?_⟩
+  rw [hd a]
+  have e2 : renOf [(2, 0)] 2 = 0 := by decide
+  constructor
+  · rintro ⟨b, hb, hf⟩
+    have hb2 := hb 2 (by simp)
+    dsimp only at hb2 hf
+    rw [imgM3_den2, den_one] at hf
+    rw [e2] at hb2
+    rw [← hb2]
+    simpa using hf
+  · intro ha
+    refine ⟨_, AgreeOff.refl _ _, ?_⟩
+    dsimp only
+    rw [imgM3_den2, den_one, e2, ha]
+    rfl
+
 /-- C13 (`image` refuses): AssertionError, manager untouched, (1) when a key of the renaming is
 also a value, (2) when a rename target is in the support of an operand and is not quantified -/
 theorem C13_image_refuses (m : Mgr) (hI : Inv m) (hV : VarsBij m.tbl)
@@ -522,5 +563,69 @@ theorem C13_preimage_statement_false : ¬ C13_preimage_statement := by
   have e0 : renOf [(0, 1)] 0 = 1 := by decide
   have e1 : renOf [(0, 1)] 1 = 1 := by decide
   simp [e0, e1]
+
+/-- C13: the hypothesis "no two keys with the same value" of `C13_preimage_partial` cannot be
+dropped.  Order `a < b < c`; `trans` = TRUE; `target = a ∧ ¬c` (independent of `b`);
+`rename = {a: b, c: b}` (partners adjacent, keys disjoint from values); `qvars = {b}`;
+existential.  Meaning: `∃ b. b ∧ ¬b` = FALSE.  The code returns TRUE. -/
+theorem C13_preimage_needs_injective :
+    ¬ (∀ (m : Mgr), Inv m → m.lastLen = none → VarsBij m.tbl →
+      ∀ (trans target : Int), m.tbl.Mem trans → m.tbl.Mem target →
+      ∀ (rn : List (Key × Key)) (qvars : List Key) (fa : Bool) (q : List Nat),
+        mapToLevelE m.tbl qvars = .ok q →
+        (resolveRename m.tbl rn ≠ [] → 0 < m.nvars) →
+        renameOverlap (resolveRename m.tbl rn) = false →
+        (∀ p, p ∈ intPairs (resolveRename m.tbl rn) →
+          0 ≤ p.1 ∧ p.1 < (m.nvars : Int) ∧ 0 ≤ p.2 ∧ p.2 < (m.nvars : Int)) →
+        (∀ p, p ∈ intPairs (resolveRename m.tbl rn) → (p.1 - p.2).natAbs = 1) →
+        (∀ p, p ∈ intPairs (resolveRename m.tbl rn) → ∀ l : Nat, p.2 = (l : Int) →
+          ¬ dependsOn m.tbl target l) →
+        PreimagePost m trans target rn qvars fa q) := by
+  intro h
+  obtain ⟨hres, hpairs⟩ := C13_rename_levels imgM3.tbl [(0, 1), (2, 1)] (by simp)
+  simp only [List.map] at hres hpairs
+  have hq : mapToLevelE imgM3.tbl [.lvl 1] = .ok [1] := by rfl
+  have hW := imgM3_inv.wf.toWF
+  have hov : renameOverlap [(Key.lvl 0, Key.lvl 1), (Key.lvl 2, Key.lvl 1)] = false := by decide
+  obtain ⟨r, m', he, _, _, _, _, hd⟩ := h imgM3 imgM3_inv rfl imgM3_varsBij 1 (-3)
+    (mem_one _) (imgM3_mem _ (by decide)) [(.lvl 0, .lvl 1), (.lvl 2, .lvl 1)] [.lvl 1] false
+    [1] hq (fun _ => by rw [imgM3_nvars']; omega) (by rw [hres]; exact hov)
+    (by
+      rw [hres, hpairs]; intro p hp; simp at hp
+      rcases hp with rfl | rfl <;> (rw [imgM3_nvars']; decide))
+    (by
+      rw [hres, hpairs]; intro p hp; simp at hp
+      rcases hp with rfl | rfl <;> decide)
+    (by
+      rw [hres, hpairs]; intro p hp l hl; simp at hp
+      have : l = 1 := by rcases hp with rfl | rfl <;> (simp only at hl; omega)
+      subst this
+      rintro ⟨a, hne⟩
+      apply hne
+      rw [den_neg imgM3.tbl hW 3 _ (imgM3_mem _ (by decide)),
+        den_neg imgM3.tbl hW 3 _ (imgM3_mem _ (by decide)), imgM3_den3, imgM3_den3]
+      simp [upd])
+  obtain ⟨r', c, m'', hrun, hden⟩ := imgM3_noninj_run
+  have hpre' : preimage 1 (-3) [(.lvl 0, .lvl 1), (.lvl 2, .lvl 1)] [.lvl 1] false imgM3 =
+      (.ok r', m'') := by
+    unfold preimage
+    have hav : assertValidRename [(Key.lvl 0, Key.lvl 1), (Key.lvl 2, Key.lvl 1)] imgM3 =
+        (.ok (), imgM3) :=
+      assertValidRename_ok imgM3 imgM3_varsBij _ (fun _ => by rw [imgM3_nvars']; omega) hov
+    have hfuel : 2 * imgM3.nvars + 4 = 10 := by rw [imgM3_nvars']
+    simp only [hq, hres, hav, hpairs, hfuel, hrun]
+  rw [hpre'] at he
+  have hr : r' = r := by
+    have := congrArg Prod.fst he
+    simpa using this
+  have hm : m'' = m' := congrArg Prod.snd he
+  subst hr hm
+  have h2 := (hd (fun _ => false)).mp (hden _)
+  refine qsem_const_false false [1] _ _ ?_ h2
+  intro b
+  rw [den_neg imgM3.tbl hW 3 _ (imgM3_mem _ (by decide)), imgM3_den3, hres, hpairs]
+  have e0 : renOf [(0, 1), (2, 1)] 0 = 1 := by decide
+  have e2 : renOf [(0, 1), (2, 1)] 2 = 1 := by decide
+  simp [e0, e2]
 
 end DD
